@@ -30,6 +30,10 @@ OBLIGATIONS = [
        need_loop_assertions=2, min_covers=1, functions=LF, checks=CK, timeout=300,
        desc='lfstack push under arbitrary interference: single successful CAS installs node with node.next == replaced head; lock-free (token variant)'),
 ]
+OBLIGATIONS.append(Ob(name='C11.O3.lock_discipline.lfs', harness='C11/lockdisc.c', entry='h_lock_lfs', defines=('PART_LFS',), unwind=3, min_covers=2, checks=('--bounds-check', '--signed-overflow-check', '--div-by-zero-check'), functions=('cds_lfs_pop_blocking', 'cds_lfs_pop_all_blocking'), timeout=300, native=True,
+    desc='mutex-protected consumer wrappers (cds_lfs_pop_blocking, cds_lfs_pop_all_blocking): every access to the consumer-side words happens with the structure\'s own mutex held, taken once and released once; result = result of the lock-free core (mutual exclusion of consumers is the documented scheme that rules out ABA / torn dequeues)'))
+OBLIGATIONS.append(Ob(name='C11.O3.lock_discipline.wfs', harness='C11/lockdisc.c', entry='h_lock_wfs', defines=('PART_WFS',), unwind=3, min_covers=2, checks=('--bounds-check', '--signed-overflow-check', '--div-by-zero-check'), functions=('cds_wfs_pop_blocking', 'cds_wfs_pop_with_state_blocking', 'cds_wfs_pop_all_blocking'), timeout=300, native=True,
+    desc='mutex-protected consumer wrappers (cds_wfs_pop_blocking, cds_wfs_pop_with_state_blocking, cds_wfs_pop_all_blocking): every access to the consumer-side words happens with the structure\'s own mutex held, taken once and released once; result = result of the lock-free core (mutual exclusion of consumers is the documented scheme that rules out ABA / torn dequeues)'))
 META = {
     'level': 'proof', 'bounded_apart': True,
     'trusted_base': ['CBMC 6.11', 'sequential meaning of the uatomic/cmm primitives (atomics_seq.h)', 'canonical pool layout'],
